@@ -761,8 +761,8 @@ theorem readPartitions_fold_ok (bm : List (Int × UBroker)) (connTopic : String)
     ∃ ps, ts.foldlM (fun acc t =>
         if concerns connTopic t then Except.error t.error
         else Except.ok (acc ++ t.partitions.map (convPartition bm t))) acc = .ok ps ∧
-      ps.map (fun p => (p.topic, p.id)) = acc.map (fun p => (p.topic, p.id)) ++
-        ts.flatMap (fun t => t.partitions.map fun p => (t.name, p.index)) := by
+      ps.map (fun p => (p.topic, p.id, p.error)) = acc.map (fun p => (p.topic, p.id, p.error)) ++
+        ts.flatMap (fun t => t.partitions.map fun p => (t.name, p.index, p.error)) := by
   induction ts generalizing acc with
   | nil => exact ⟨acc, rfl, by simp⟩
   | cons t ts ih =>
@@ -788,12 +788,13 @@ theorem readPartitions_fold_err (bm : List (Int × UBroker)) (connTopic : String
     exact ih _ hpre.2
 
 /-- **ReadPartitions, error scope**: when no answered topic carries an error that concerns the connection, every
-partition of every answered topic is reported, in order (errors of other topics hide nothing); otherwise the first
+partition of every answered topic is reported, in order, with the error code the broker gave for it (after fix C19-D32; errors of
+other topics hide nothing); otherwise the first
 such error is returned. -/
 theorem readPartitions_error_scope (connTopic : String) (res : MResponse) :
     (res.topics.all (fun t => !concerns connTopic t) = true →
       ∃ ps, readPartitions connTopic res = .ok ps ∧
-        ps.map (fun p => (p.topic, p.id)) = res.topics.flatMap (fun t => t.partitions.map fun p => (t.name, p.index))) ∧
+        ps.map (fun p => (p.topic, p.id, p.error)) = res.topics.flatMap (fun t => t.partitions.map fun p => (t.name, p.index, p.error))) ∧
     (∀ pre t post, res.topics = pre ++ t :: post → pre.all (fun t => !concerns connTopic t) = true →
       concerns connTopic t = true → readPartitions connTopic res = .error t.error) := by
   constructor
